@@ -48,7 +48,7 @@ var openers = map[string]func(dir string) (dbm.DB, error){
 
 // Documented per back end constants (doc comments of each package), not discovered at run time.
 var emptyKeyOK = map[string]bool{"memdb": true, "goleveldb": true, "pebbledb": true,
-	"boltdb": false, "lmdbdb": false, "mdbxdb": false} // nonEmptyKey sentinels
+									"boltdb": false, "lmdbdb": false, "mdbxdb": false} // nonEmptyKey sentinels
 var snapshotOK = map[string]bool{"memdb": true, "pebbledb": true} // others: "snapshots not supported"
 
 type variant struct {
@@ -265,7 +265,7 @@ type runner struct {
 
 type stats struct {
 	steps, replays, replaysOK, snapSkipped, iterItems, iterProbes, getProbes, getAliased, heldChecked, flaky, iterNilEmpty int64
-	_ [64]byte // one cache line per worker
+	_                                                                                                                      [64]byte // one cache line per worker
 }
 
 func fresh(b []byte) []byte { // never hand our own table slices to the DB
